@@ -156,11 +156,22 @@ struct RowMajor {
 };
 
 // ---------------------------------------------------------------- Morton
-template <class I, size_t N, bool BMI>
+// IX: the index scalar of the backend beneath the layer (the type positions are computed in); size_t by default,
+// `unsigned long long` (same width, another type) and `long` (63 value bits: axis k holds coordinates whose top bit still
+// lands below bit 63) as further instantiations
+template <class I, size_t N, bool BMI, class IX = std::size_t>
 struct Morton {
-    using B = cb::morton<cv::vector_d<I, N>, ID, BMI>;
+    using B = cb::morton<cv::vector_d<I, N>, cb::identity<cv::vector_d<IX, 1>>, BMI>;
+    static uint64_t lim_of(size_t k)
+    {
+        unsigned bits = BITS;
+        if (std::is_signed_v<IX>) {
+            bits = std::min<unsigned>(bits, unsigned((62 - k) / N + 1));
+        }
+        return bits >= 64 ? ~uint64_t(0) - 1 : (uint64_t(1) << bits) - 1;
+    }
     static constexpr unsigned BITS = (64 / N) < (8 * sizeof(I) - (std::is_signed_v<I> ? 1 : 0)) ? (64 / N) : (8 * sizeof(I) - (std::is_signed_v<I> ? 1 : 0));
-    static std::string name() { return std::string("morton/") + (BMI ? "bmi2" : "portable") + "/I=" + tname<I>() + "/N=" + std::to_string(N); }
+    static std::string name() { return std::string("morton/") + (BMI ? "bmi2" : "portable") + "/I=" + tname<I>() + "/N=" + std::to_string(N) + (std::is_same_v<IX, std::size_t> ? "" : std::is_same_v<IX, long> ? "/index=long" : "/index=unsigned long long"); }
     static Verdict run(const Case & c)
     {
         // extents just large enough to contain every coordinate (the layer asserts c < extent)
@@ -184,7 +195,7 @@ struct Morton {
             }
             uint64_t want = uint64_t(ref::morton(cc));
             uint64_t got_static = B::calculate_index(x);
-            uint64_t got_layer = v.at(x)[0];
+            uint64_t got_layer = uint64_t(v.at(x)[0]);
             ++n;
             nt += high;
             if (got_static != want || got_layer != want) {
@@ -250,6 +261,9 @@ struct Morton {
                 for (uint64_t bg : {uint64_t(0), lim, uint64_t(0x5555555555555555ULL & lim)}) {
                     std::vector<uint64_t> c(N, bg);
                     c[ax] = p;
+                    for (size_t k = 0; k < N; ++k) {
+                        c[k] &= lim_of(k);
+                    }
                     cs.push_back(c);
                 }
             }
@@ -258,7 +272,14 @@ struct Morton {
         auto coord = rc::gen::container<std::vector<uint64_t>>(
             N, rc::gen::map(rc::gen::pair(rc::gen::arbitrary<uint64_t>(), in_range<unsigned>(0, BITS)), [lim](std::pair<uint64_t, unsigned> p) { return (p.second >= 64 ? p.first : (p.first & ((uint64_t(1) << p.second) - 1))) & lim; })
         );
-        rc_campaign<Case>(name(), tier(1500, 60000), 100, rc::gen::map(rc::gen::container<std::vector<std::vector<uint64_t>>>(8, coord), with_coords), run);
+        rc_campaign<Case>(name(), tier(1500, 60000), 100, rc::gen::map(rc::gen::container<std::vector<std::vector<uint64_t>>>(8, coord), [](std::vector<std::vector<uint64_t>> cs) {
+            for (auto & c : cs) {
+                for (size_t k = 0; k < N; ++k) {
+                    c[k] &= lim_of(k);
+                }
+            }
+            return with_coords(std::move(cs));
+        }), run);
     }
     static void reg()
     {
@@ -454,6 +475,12 @@ void register_all()
     Hilbert<uint16_t>::reg();   // coordinates < 1024 fit; positions (up to 4^10) do not: they must not be computed in the coordinate type
     Morton<uint16_t, 2, false>::reg();
     Morton<uint16_t, 4, true>::reg();
+    // other index scalars beneath the layer
+    Morton<std::size_t, 2, true, unsigned long long>::reg();
+    Morton<std::size_t, 3, false, unsigned long long>::reg();
+    Morton<std::size_t, 2, false, long>::reg();
+    Morton<std::size_t, 4, true, long>::reg();
+    Morton<std::size_t, 3, false, long>::reg();
 #endif
 }
 }   // namespace
